@@ -38,8 +38,11 @@ DiffAvg(v, a, L) ==
 Dist(metric, v, a, L) == IF metric = "euclidean" \/ L = 1 THEN Euclid2(v, a, L) ELSE DiffAvg(v, a, L)
 
 ValCol(c, invs, L) == [ l \in 1..L |-> invs[c[l] + 1] ]
+\* all candidates at minimal distance (ties: every minimiser is acceptable)
 Minimisers(metric, v, cands, invs, L) ==
-    { c \in cands : \A d \in cands : Dist(metric, v, ValCol(c, invs, L), L) <= Dist(metric, v, ValCol(d, invs, L), L) }
+    LET d == [ c \in cands |-> Dist(metric, v, ValCol(c, invs, L), L) ]
+        m == MinOf({ d[c] : c \in cands })
+    IN  { c \in cands : d[c] = m }
 
 \* ---------- materials ----------
 \* eps: permittivities in dictionary order, pairwise distinct (any common unit);
